@@ -1142,6 +1142,7 @@ func main() {
 		stressChild(*stressFlag)
 		return
 	}
+	xvlib.DefaultHangSecs = 90 // every p2p operation finishes within seconds (the longest, errflood, gives up after 20 s)
 	out := xvlib.NewOut(args.Out)
 	defer out.Close()
 	ctx := netCtx()
